@@ -35,6 +35,9 @@ const TWO64: u128 = 1u128 << 64;
 thread_local! {
     /// canonical message text of every successful run of the stake handler inside the current tx
     static LOG: RefCell<Vec<String>> = RefCell::new(vec![]);
+    /// raw `WasmMsg::Execute.msg` bytes (hex) of the hook messages / cw20 transfers of the handler calls of one tx
+    static HOOKRAW: RefCell<Vec<String>> = RefCell::new(vec![]);
+    static XFERRAW: RefCell<Vec<String>> = RefCell::new(vec![]);
 }
 
 #[cw_serde]
@@ -94,12 +97,28 @@ fn render_msgs(res: &Response) -> String {
     v.join(";")
 }
 
+/// Records the raw bytes of every `WasmMsg::Execute.msg` of a handler response: member-changed hooks in `HOOKRAW`,
+/// everything else (the cw20 `Transfer` of a claim) in `XFERRAW`; compared byte for byte with the model's
+/// `MsgWire.encodeHook` / `MsgWire.encodeTransfer`.
+fn record_raw(res: &Response) {
+    for m in &res.messages {
+        if let CosmosMsg::Wasm(WasmMsg::Execute { msg, .. }) = &m.msg {
+            if from_json::<HookExec>(msg).is_ok() {
+                HOOKRAW.with(|l| l.borrow_mut().push(hex(msg.as_slice())));
+            } else {
+                XFERRAW.with(|l| l.borrow_mut().push(hex(msg.as_slice())));
+            }
+        }
+    }
+}
+
 /// The recording wrapper around the real `execute`.
 fn rec_execute(deps: DepsMut, env: Env, info: MessageInfo, msg: ExecuteMsg) -> Result<Response, ContractError> {
     let r = std::panic::catch_unwind(std::panic::AssertUnwindSafe(|| cw4_stake::contract::execute(deps, env, info, msg)));
     match r {
         Ok(Ok(res)) => {
             LOG.with(|l| l.borrow_mut().push(render_msgs(&res)));
+            record_raw(&res);
             Ok(res)
         }
         Ok(Err(e)) => Err(e),
@@ -460,6 +479,8 @@ impl StakeScen {
     /// One atomic transaction (cw-multi-test rolls everything back on error).
     fn tx(&mut self, sender: &Addr, msg: CosmosMsg) -> String {
         LOG.with(|l| l.borrow_mut().clear());
+        HOOKRAW.with(|l| l.borrow_mut().clear());
+        XFERRAW.with(|l| l.borrow_mut().clear());
         let h = self.app.block_info().height;
         let app = &mut self.app;
         let r = catch(|| app.execute(sender.clone(), msg));
@@ -469,7 +490,9 @@ impl StakeScen {
                     self.heights.push(h);
                 }
                 let msgs = LOG.with(|l| l.borrow().join("||"));
-                format!("> ok msgs={msgs}")
+                let hookraw = HOOKRAW.with(|l| l.borrow().join("+"));
+                let xferraw = XFERRAW.with(|l| l.borrow().join("+"));
+                format!("> ok msgs={msgs} hookraw={hookraw} xferraw={xferraw}")
             }
             Some(Err(_)) => "> err".to_string(),
             None => "> err panic=1".to_string(),
